@@ -10,6 +10,45 @@ TZS = ["UTC", "Europe/Berlin", "America/New_York", "Australia/Lord_Howe", "Asia/
 BAR = " | "
 
 
+# Behaviour-preserving rewrites of the anchored code that the check must NOT report (documentation: the patches are
+# kept under corpus/C08/negative_controls/ and are not applied by the check).  Each was built as a mutated object file in
+# scratch, linked into a scratch harness and run through correspondence + reporting at seeds 1, 2, 3: exit 0, no
+# VIOLATION.  "needed" says what in the check makes the control silent.
+NEGATIVE_CONTROLS = [
+    {"patch": "nc1_addsegment_adjacent_not_merged.diff",
+     "what": "AddSegment 'extend to the right' uses `end > begin`: touching segments [0,5) [5,9) are kept apart instead of merged",
+     "needed": "segment lists are compared in canonical form (canon_preserves_inside); alarmed before that was introduced"},
+    {"patch": "nc2_timeperiod_refactor_guards_helper_logtext.diff",
+     "what": "timeperiod.cpp: window bookkeeping extracted into a static helper (end before begin), locals renamed, other log texts, "
+             "guards respelled (swapped operands, negated conjunctions, else-if chains, early returns, positive instead of `continue`) in "
+             "AddSegment/RemoveSegment/PurgeSegments/Merge/UpdateRegion/IsInside, merge loops folded into a lambda",
+     "needed": "nothing (only public entry points and their results are observed; no message text)"},
+    {"patch": "nc3_timeperiod_front_insert_extra_field_no_inplace_edit.diff",
+     "what": "other representation: new segments are inserted at the FRONT of the array and carry an extra `duration` field, RemoveSegment "
+             "never edits a dictionary in place (fresh/cloned dictionaries), the clearing UpdateRegion widens the window directly instead of "
+             "calling RemoveSegment on the empty list, PurgeSegments removes from the array in place",
+     "needed": "canonical comparison; the harness reads only `begin`/`end`; every model step starts from the implementation's observed state"},
+    {"patch": "nc4_timeperiod_segments_kept_sorted_and_coalesced.diff",
+     "what": "AddSegment appends and then rebuilds the array sorted by begin with everything overlapping or touching coalesced",
+     "needed": "canonical comparison"},
+    {"patch": "nc5_legacy_refactor_renamed_helper_errortext_guards.diff",
+     "what": "legacytimeperiod.cpp: static helper mktime_const renamed, date set-up extracted into a helper with reordered assignments, all "
+             "exception and log texts changed, IsInTimeRange/ProcessTimeRangeRaw/ProcessTimeRanges/FindNextSegment guards respelled, "
+             "FindNthWeekday as do/while",
+     "needed": "nothing (exceptions are observed as 'threw or not', never by text)"},
+    {"patch": "nc6_legacy_scriptfunc_entries_outer_days_inner.diff",
+     "what": "ScriptFunc iterates entries in the outer and days in the inner loop (same segments, different order; hence differently merged lists)",
+     "needed": "canonical comparison of the returned segments and of the resulting period"},
+    {"patch": "nc7_timeperiod_update_function_asked_up_front.diff",
+     "what": "UpdateRegion asks the update function before deciding that a non-clearing update has nothing to do (one extra, unused call)",
+     "needed": "ALARMED first (what=update-args): the region the update function is asked for is now an oracle input that only has to "
+               "cover the refreshed region; asking also when nothing is refreshed, or for more, is no difference"},
+    {"patch": "nc8_legacy_scriptfunc_result_sorted_deduplicated.diff",
+     "what": "ScriptFunc returns its segments sorted by begin and without exact duplicates (fresh array)",
+     "needed": "canonical comparison"},
+]
+
+
 class C08(Check):
     prop = "C08"
     required_theorems = ["canon_preserves_inside", "canon_eq_same_denotation", "addSeg_union", "addSeg_comm", "removeSeg_diff", "removeSeg_sound", "updateRegion_spec", "nested_forest_spec",
